@@ -175,8 +175,10 @@ func (v *Verifier) autoInline(fn *ssa.Function) bool {
 	}
 	n := 0
 	for _, b := range fn.Blocks {
-		n += len(b.Instrs)
 		for _, in := range b.Instrs {
+			if _, dbg := in.(*ssa.DebugRef); !dbg {
+				n++
+			}
 			switch in := in.(type) {
 			case *ssa.Defer, *ssa.Go, *ssa.Select, *ssa.Send:
 				return false
@@ -187,7 +189,7 @@ func (v *Verifier) autoInline(fn *ssa.Function) bool {
 			}
 		}
 	}
-	return n <= 80
+	return n <= 100
 }
 
 // ---------------------------------------------------------------------------
